@@ -9,7 +9,7 @@ from core import Case, CheckBroken
 
 PID = "C01"
 LEAN_MODULES = ["KrroodVerif.Props.C01", "KrroodVerif.Props.C01Union", "KrroodVerif.Props.C01Typed",
-                "KrroodVerif.Props.C01Quant", "KrroodVerif.Props.C01IR"]
+                "KrroodVerif.Props.C01Quant", "KrroodVerif.Props.C01IR", "KrroodVerif.Props.C01IROr"]
 THEOREMS = [
     "KrroodVerif.Eql.C01_cover",
     "KrroodVerif.Eql.C01_sound_complete_partial",
@@ -67,6 +67,11 @@ THEOREMS = [
     "KrroodVerif.Eql.IR.runNode_and",
     "KrroodVerif.Eql.IR.C01_runIR_eq_eval_and_partial",
     "KrroodVerif.Eql.IR.C01_runIR_eq_eval_closed_partial",
+    "KrroodVerif.Eql.IR.loopSt_specF",
+    "KrroodVerif.Eql.IR.or_right_call",
+    "KrroodVerif.Eql.IR.or_left_call",
+    "KrroodVerif.Eql.IR.runNode_elseIf",
+    "KrroodVerif.Eql.IR.C01_runIR_eq_eval_elseIf_partial",
 ]
 # second tie (translator): the table of construction-time rewrites regenerated from the current source equals the one
 # `build` transcribes and is admissible — the same two obligations as C02 (harness/translate/c02_translate.py)
